@@ -182,12 +182,37 @@ pub fn drive(vectors: Option<&str>, corpus: &str, seed: u64, out: &str, thorough
     (SupportLang::C, "if (a)"), (SupportLang::Cpp, "if (a)"), (SupportLang::CSharp, "if (a)"), (SupportLang::Bash, "$()"),
     (SupportLang::Css, "{}"), (SupportLang::C, "int f() { if (a) }"), (SupportLang::Java, "class A { void f() { if (a) } }"),
     (SupportLang::JavaScript, "if (a)"), (SupportLang::Go, "func f() { if a }"), (SupportLang::Rust, "fn f() { let x = ; }"),
+    // ANONYMOUS nodes that have children (a token sequence aliased to a string by the grammar)
+    (SupportLang::Python, "if a not in b:\n    pass\nx = a is not b\n"), (SupportLang::Swift, "var x: Int? = nil\nlet y: [String?]? = nil\n"),
   ];
   for (i, (l, src)) in fixed.iter().enumerate() {
     if let Some(mut r) = record_tree(&format!("recovery{i}"), *l, "<recovery>", src, &mut rng, 40, 2000) {
       r["src"] = json!(src);
       w.put(&r);
       n_recovery += 1;
+    }
+  }
+  // ... and every such node of the corpus: the statement around it
+  let mut n_anon = 0;
+  for (l, path, text) in util::corpus(corpus) {
+    let g = l.ast_grep(&text);
+    let mut seen = 0;
+    for n in all_nodes(&g) {
+      if n.is_named() || n.children().count() == 0 || seen >= 2 {
+        continue;
+      }
+      let Some(par) = n.parent() else { continue };
+      let host = par.parent().unwrap_or(par);
+      if proj::count_nodes(&host.get_ts_node()) > 80 {
+        continue;
+      }
+      let src = host.text().to_string();
+      if let Some(mut r) = record_tree(&format!("anon-{path}-{seen}"), l, "<anonymous-with-children>", &src, &mut rng, 40, 2000) {
+        r["src"] = json!(src);
+        w.put(&r);
+        n_anon += 1;
+        seen += 1;
+      }
     }
   }
   fn has_hollow(n: &tree_sitter::Node) -> bool {
@@ -238,5 +263,5 @@ pub fn drive(vectors: Option<&str>, corpus: &str, seed: u64, out: &str, thorough
     }
   }
   let n = w.finish();
-  util::summary(json!({"records": n, "from_vectors": n_vec, "from_corpus": n_corpus, "error_recovery_texts": n_recovery, "languages": langs}));
+  util::summary(json!({"records": n, "from_vectors": n_vec, "from_corpus": n_corpus, "error_recovery_texts": n_recovery, "anonymous_nodes_with_children_texts": n_anon, "languages": langs}));
 }
